@@ -131,6 +131,19 @@ class Labeller:
         self.mapvar = mapvar
         self.params = params or {}
         self._busy = set()
+        # local containers that are filled in place (append / extend / += ...) must stay names: their unique `x = []`
+        # definition says nothing about their content
+        self.mutated = set()
+        for n in walk_no_nested(func.node):
+            if isinstance(n, ast.Call) and isinstance(n.func, ast.Attribute) and isinstance(n.func.value, ast.Name) \
+                    and n.func.attr in MUTATORS:
+                self.mutated.add(n.func.value.id)
+            elif isinstance(n, ast.AugAssign) and isinstance(n.target, ast.Name):
+                self.mutated.add(n.target.id)
+            elif isinstance(n, (ast.Assign, ast.Delete)):
+                for t in n.targets:
+                    if isinstance(t, ast.Subscript) and isinstance(t.value, ast.Name):
+                        self.mutated.add(t.value.id)
 
     # ---------------------------------------------------------------- expansion
     def node(self, e):
@@ -139,7 +152,7 @@ class Labeller:
     def expand(self, e: ast.AST, at=None) -> ast.AST:
         if at is None:
             at = self.node(e)
-        return self.ex.expand(e, at, stop={self.mapvar} if self.mapvar else set())
+        return self.ex.expand(e, at, stop=self.mutated | ({self.mapvar} if self.mapvar else set()))
 
     def label(self, e: ast.AST, at=None, env=None) -> Lab:
         """label of an original (statement level) expression of the function"""
@@ -315,7 +328,7 @@ class Labeller:
                 return Lab('LINKS')
             if a == 'parent':
                 return Lab('LINK', nullable=True)
-            return Lab('VAL')
+            return Lab('LINKKEY') if a == 'id' else Lab('VAL')
         if b.kind == 'SELF':
             if a in ('roots', 'tasks'):
                 return Lab('MEMBERS')
@@ -331,7 +344,7 @@ class Labeller:
         if b.kind in ('MAP', 'NEWMAP'):
             if k.kind == 'SRCKEY':
                 return Lab('CLONE', k.sel, k.origin)
-            return Lab('MAPPED', nullable=via_get)
+            return Lab('MAPPED', origin='link' if k.kind == 'LINKKEY' else None, nullable=via_get)
         if b.kind == 'SRCMAP':
             if k.kind == 'SRCKEY':
                 return Lab('SRC', k.sel, k.origin)
@@ -459,7 +472,8 @@ def find_copy_loops(ctx, f: Func) -> List[CopyLoop]:
                 atoms = []
                 hdr_ids = {(id(t), p) for t, p in header}
                 for t, pol in [c for c in cfg.conditions(cn) if (id(c[0]), c[1]) not in hdr_ids]:
-                    atoms += facts.split_conj(ex.expand(t, cfg.node_containing(t), stop={key, val_name or key}), pol)
+                    stop = {key, val_name or key} | {x.id for x in ast.walk(dst) if isinstance(x, ast.Name)}
+                    atoms += facts.split_conj(ex.expand(t, cfg.node_containing(t), stop=stop), pol)
                 out.append(CopyLoop(fo, n, src_expr, dst, key, val_name, value, atoms, header))
     return out
 
@@ -581,6 +595,7 @@ class CloneAnalysis:
         self.e_subtree = p.func('wbs.WBS.subtree')
         self.eff = Effects(p, ctx.typer, ctx.cg)
         self.facts: List[tuple] = []
+        self._text: Dict[int, str] = {}
         self.clause = None
         # ---- map variable of __clone_tasks = the returned name
         self.mapvar = None
@@ -632,8 +647,16 @@ class CloneAnalysis:
     def _atoms(self, L: Labeller, node) -> List[Tuple[ast.AST, bool]]:
         out = []
         for t, pol in L.cfg.conditions(node):
-            out += facts.split_conj(L.expand(t, L.cfg.node_containing(t)), pol)
+            ea = facts.split_conj(L.expand(t, L.cfg.node_containing(t)), pol)
+            oa = facts.split_conj(t, pol)
+            for i, (a, p) in enumerate(ea):
+                self._text[id(a)] = src(oa[i][0]) if len(oa) == len(ea) else src(a)
+            out += ea
         return out
+
+    def text(self, atom) -> str:
+        """source text of a path-condition atom as written (before expansion)"""
+        return self._text.get(id(atom)) or src(atom)
 
     # ---------------------------------------------------------------- (a) creation of the map
     def _map(self):
@@ -793,13 +816,13 @@ class CloneAnalysis:
                     continue
                 if t == 'INT':
                     mentions_v = True
-                    verdicts.append(('refute', atom, f"tasks are put into the clone map when `{'' if pol else 'not '}{src(atom)}`, i.e. "
+                    verdicts.append(('refute', self.text(atom), f"tasks are put into the clone map when `{'' if pol else 'not '}{self.text(atom)}`, i.e. "
                                                      f"when they belong to the SAME WBS: members are shared with the copy and outside "
                                                      f"tasks are dropped (expected `{src(v)}.wbs != self`)"))
                     continue
                 if t == 'NONE':
                     mentions_v = True
-                    verdicts.append(('refute', atom, f"the test `{'' if pol else 'not '}{src(atom)}` excludes detached tasks (wbs is "
+                    verdicts.append(('refute', self.text(atom), f"the test `{'' if pol else 'not '}{self.text(atom)}` excludes detached tasks (wbs is "
                                                      f"None): they are outside the source WBS, so links to them must be kept; "
                                                      f"the only test allowed is `{src(v)}.wbs != self`"))
                     continue
@@ -811,19 +834,19 @@ class CloneAnalysis:
                     if cl.kind == 'MAP' and neg:
                         continue                       # `x.id not in map`: what setdefault does anyway
                     if cl.kind in ('SRCMAP', 'SRCS', 'SRCKEYS'):
-                        verdicts.append(('refute', atom, f"`{'' if pol else 'not '}{src(atom)}` decides 'outside' by the selection instead "
+                        verdicts.append(('refute', self.text(atom), f"`{'' if pol else 'not '}{self.text(atom)}` decides 'outside' by the selection instead "
                                                          f"of by the owner: for subtree() links to non-selected MEMBERS of the source are "
                                                          f"kept and wired to the live source tasks (expected `{src(v)}.wbs != self`)"))
                         continue
-                    verdicts.append(('undecided', atom, "unrecognised membership test guarding the registration of an outside task"))
+                    verdicts.append(('undecided', self.text(atom), "unrecognised membership test guarding the registration of an outside task"))
                     continue
                 if an & vnames:
                     mentions_v = True
-                    verdicts.append(('undecided', atom, "unrecognised condition on the task being registered as outside task"))
+                    verdicts.append(('undecided', self.text(atom), "unrecognised condition on the task being registered as outside task"))
                     continue
                 if any(same(atom, it) or match("len($x) > 0", atom) and same(match("len($x) > 0", atom)['x'], it) for it in iters):
                     continue                           # `if t.predecessors:` around the loop over the same list
-                verdicts.append(('undecided', atom, "registration of outside tasks is conditional on a test the rule does not interpret"))
+                verdicts.append(('undecided', self.text(atom), "registration of outside tasks is conditional on a test the rule does not interpret"))
             if not ext and not any(vd[0] == 'refute' for vd in verdicts):
                 if not mentions_v:
                     verdicts.append(('refute', call, f"`{src(call)}` is not guarded by `{src(v)}.wbs != self`: non-selected members of the "
